@@ -14,6 +14,7 @@ from __future__ import annotations
 
 import json
 import os
+import re
 import shutil
 import subprocess
 import sys
@@ -35,19 +36,22 @@ def sh(*cmd):
 
 
 class Root:
-    def __init__(self):
+    def __init__(self, mode: str = "chroot"):
+        self.mode = mode
         self.base = Path(tempfile.mkdtemp(prefix="c16root-"))
         self.root = self.base / "r"
         self.root.mkdir()
-        (self.root / "usr").mkdir()
-        sh("mount", "--bind", "/usr", str(self.root / "usr"))
-        sh("mount", "-o", "remount,ro,bind", str(self.root / "usr"))
-        for l in ["bin", "lib", "lib64", "lib32", "libx32", "sbin"]:
-            if os.path.islink("/" + l):
-                os.symlink(os.readlink("/" + l), self.root / l)
-        (self.root / "dev").mkdir()
-        (self.root / "dev" / "null").touch()
-        sh("mount", "--bind", "/dev/null", str(self.root / "dev" / "null"))
+        self.prefix = "" if mode == "chroot" else str(self.root)
+        if mode == "chroot":
+            (self.root / "usr").mkdir()
+            sh("mount", "--bind", "/usr", str(self.root / "usr"))
+            sh("mount", "-o", "remount,ro,bind", str(self.root / "usr"))
+            for l in ["bin", "lib", "lib64", "lib32", "libx32", "sbin"]:
+                if os.path.islink("/" + l):
+                    os.symlink(os.readlink("/" + l), self.root / l)
+            (self.root / "dev").mkdir()
+            (self.root / "dev" / "null").touch()
+            sh("mount", "--bind", "/dev/null", str(self.root / "dev" / "null"))
         st = self.root / "stubs"
         st.mkdir()
         shutil.copy(STUBS / "stub", st / "stub")
@@ -70,10 +74,31 @@ class Root:
                 p.unlink()
 
     def close(self):
+        if self.mode != "chroot":
+            shutil.rmtree(self.base, ignore_errors=True)
+            return
         subprocess.run(["umount", str(self.root / "dev" / "null")], capture_output=True)
         subprocess.run(["umount", str(self.root / "usr")], capture_output=True)
         if not os.path.ismount(self.root / "usr") and not os.listdir(self.root / "usr"):
             shutil.rmtree(self.base, ignore_errors=True)
+
+    # --- relocation mode (no mount namespace available): the absolute paths of the script are moved below the
+    # scratch root textually, and the prefix is stripped again from everything that is reported
+    ABS = re.compile(r"(?<![\w$}/.])/(home/atlas|opt/cms|results|xaod_calibration_cache)\b")
+
+    def relocate_script(self, text: str) -> str:
+        return text if not self.prefix else self.ABS.sub(lambda m: self.prefix + m.group(0), text)
+
+    def relocate_arg(self, a: str) -> str:
+        if not self.prefix:
+            return a
+        if a.startswith("/"):
+            return self.prefix + a
+        m = re.match(r"^(-[cr]*[do])(/.*)$", a)
+        return m.group(1) + self.prefix + m.group(2) if m else a
+
+    def strip(self, s: str) -> str:
+        return s.replace(self.prefix, "") if self.prefix else s
 
     # --- file system snapshot (everything a script could touch)
     def snapshot(self) -> Dict[str, Any]:
@@ -92,7 +117,7 @@ class Root:
             for e in sorted(os.listdir(p)):
                 self._walk(p / e, name + "/" + e, snap)
         else:
-            snap[name] = {"kind": "file", "content": parse_content(p.read_bytes().decode("utf-8", "replace"))}
+            snap[name] = {"kind": "file", "content": parse_content(self.strip(p.read_bytes().decode("utf-8", "replace")))}
 
 
 def parse_content(s: str) -> Dict[str, Any]:
@@ -128,23 +153,25 @@ def run_case(r: Root, case: Dict[str, Any]) -> Dict[str, Any]:
     for d in ["work", "scripts", "log", "tmp"]:
         (root / d).mkdir()
     write_tree(root, case["files"])
-    (root / "scripts" / "runner.sh").write_text(case["script"])
+    (root / "scripts" / "runner.sh").write_text(r.relocate_script(case["script"]))
     os.chmod(root / "scripts" / "runner.sh", 0o755)
     out = []
     for k, inv in enumerate(case["invocations"]):
         (root / "log" / "counter").write_text("0\n")
         (root / "log" / "log").write_text("")
         before = r.snapshot()
-        env = {"PATH": "/stubs:/realbin", "C16_FAULTS": ",".join(f"{i}={s}" for i, s in sorted(inv.get("faults", {}).items(), key=lambda kv: int(kv[0]))), "C16_INV": str(inv.get("inv", k))}
-        env.update(case.get("env", {}))
+        pre = r.prefix
+        env = {"PATH": f"{pre}/stubs:{pre}/realbin", "C16_ROOT": pre, "C16_FAULTS": ",".join(f"{i}={s}" for i, s in sorted(inv.get("faults", {}).items(), key=lambda kv: int(kv[0]))), "C16_INV": str(inv.get("inv", k))}
+        env.update({n: r.relocate_arg(v) for n, v in case.get("env", {}).items()})
 
         def enter():
-            os.chroot(str(root))
-            os.chdir("/work")
+            if not pre:
+                os.chroot(str(root))
+            os.chdir(pre + "/work")
 
         try:
-            p = subprocess.run(["/scripts/runner.sh"] + list(inv["args"]), env=env, preexec_fn=enter, capture_output=True, timeout=30)
-            code, err = p.returncode, p.stderr.decode("utf-8", "replace")[-600:]
+            p = subprocess.run([pre + "/scripts/runner.sh"] + [r.relocate_arg(a) for a in inv["args"]], env=env, preexec_fn=enter, capture_output=True, timeout=30)
+            code, err = p.returncode, r.strip(p.stderr.decode("utf-8", "replace"))[-600:]
         except subprocess.TimeoutExpired:
             code, err = -1, "timeout"
         except OSError as e:
@@ -153,7 +180,7 @@ def run_case(r: Root, case: Dict[str, Any]) -> Dict[str, Any]:
         for line in (root / "log" / "log").read_text().split("\n"):
             if not line:
                 continue
-            f = line.split(US)
+            f = r.strip(line).split(US)
             log.append({"idx": int(f[0]), "status": int(f[1]), "argv": f[2:]})
         after = r.snapshot()
         out.append({"code": code, "log": log, "before": before, "after": after, "stderr": err})
@@ -161,8 +188,8 @@ def run_case(r: Root, case: Dict[str, Any]) -> Dict[str, Any]:
     return {"id": case.get("id"), "results": out}
 
 
-def worker_main():
-    r = Root()
+def worker_main(mode: str = "chroot"):
+    r = Root(mode)
     try:
         for line in sys.stdin:
             line = line.strip()
@@ -181,11 +208,23 @@ def worker_main():
 
 # ----------------------------------------------------------------------------- caller side
 def available() -> bool:
+    """can we get a private mount namespace and chroot?"""
+    if os.environ.get("C16_SANDBOX") == "reloc":
+        return False
     try:
-        p = subprocess.run(["unshare", "-m", "true"], capture_output=True, timeout=20)
+        p = subprocess.run(["unshare", "-m", "sh", "-c", "mount --bind /usr /mnt 2>/dev/null || mount --bind /usr /tmp"], capture_output=True, timeout=20)
         return p.returncode == 0 and os.geteuid() == 0
     except Exception:
         return False
+
+
+_MODE: List[str] = []
+
+
+def mode() -> str:
+    if not _MODE:
+        _MODE.append("chroot" if available() else "reloc")
+    return _MODE[0]
 
 
 def run_cases(cases: List[Dict[str, Any]], nworkers: int = 16) -> List[Dict[str, Any]]:
@@ -203,7 +242,9 @@ def run_cases(cases: List[Dict[str, Any]], nworkers: int = 16) -> List[Dict[str,
 
     def drive(chunk):
         inp = "".join(json.dumps(c) + "\n" for c in chunk)
-        p = subprocess.run(["unshare", "-m", sys.executable, str(Path(__file__).resolve()), "worker"], input=inp, capture_output=True, text=True, timeout=1800)
+        me = [sys.executable, str(Path(__file__).resolve()), "worker"]
+        cmd = ["unshare", "-m"] + me if mode() == "chroot" else me + ["reloc"]
+        p = subprocess.run(cmd, input=inp, capture_output=True, text=True, timeout=1800)
         for l in p.stdout.split("\n"):
             if l.strip():
                 r = json.loads(l)
@@ -223,4 +264,4 @@ def run_cases(cases: List[Dict[str, Any]], nworkers: int = 16) -> List[Dict[str,
 
 if __name__ == "__main__":
     if len(sys.argv) > 1 and sys.argv[1] == "worker":
-        worker_main()
+        worker_main(sys.argv[2] if len(sys.argv) > 2 else "chroot")
